@@ -3,7 +3,7 @@ import json
 import os
 import re
 
-from ..lib import calls, short
+from ..lib import calls, cname, short
 from ..sym import Sym
 
 VERIF = os.path.dirname(os.path.dirname(os.path.dirname(os.path.abspath(__file__))))
@@ -71,6 +71,13 @@ def run(ctx):
         ctx.check(not bad and len(set(sc)) == len(sc), "LANG-UNIQ", "sub-languages of %s" % lt, "%d entries" % len(subs),
                   "sub-language tags not under '%s-': %s; duplicate codes: %s" % (lt, bad, sorted({c for c in sc if sc.count(c) > 1})), loc,
                   key="LANG-UNIQ|sub|%s" % lt)
+
+    # ... and if from_tag splits at the LAST '-' instead, the language part of a tag with two hyphens (uz-Cyrl-UZ) is not a language tag of the table
+    last = [short(cname(prog, t)) for g in prog.unit(f_from) for b_, t in g.calls() if re.search(r"<impl str>::(rsplit_once|rsplitn|rsplit|rfind|rsplit_terminator)$", cname(prog, t))]
+    multi = [t for t in subtags if t.count("-") > 1]
+    ctx.check(not (last and multi), "LANG-UNIQ", "the split of from_tag finds the language part of every sub-language tag", "%d tags with two hyphens" % len(multi),
+              "from_tag splits at the last '-' (%s) and the table holds %s: the part in front is no language tag, so the tag the library prints for that code reads back as the "
+              "neutral language" % (last, multi[:4]), f_from.loc(), fn=f_from.name, key="LANG-UNIQ|split")
 
     ctx.rule("LANG-FIT", "every language code fits LANG_MASK and is non-zero, every sub-language code is in 1..63 (fits `<< SUBLANG_SHIFT` in 16 "
                          "bits and is distinguishable from the neutral sub-language); LANG_MASK == (1 << SUBLANG_SHIFT) - 1; the constants used "
